@@ -19,7 +19,7 @@ RULE = ('one descriptor = (device profile, api sync/async, trigger kind in {link
         'signature) among runs in which the trigger actually fired.')
 ASSUMPTIONS = ['link errors are reported the two ways RadioDriver does: from its own thread, or from inside send_packet '
                'in the calling thread', 'virtual-time horizon of 150 s per blocking call stands in for "bounded time"']
-REQUIRED = ['mon.reconnects_issued_at_once_from_the_failure_notification', 'mon.attempts_with_duplicated_answers', 'mon.close_in_a_port_or_parameter_callback_of_the_application', 'mon.attempts', 'mon.trigger_fired', 'mon.reconnects', 'mon.fault_before_first_packet',
+REQUIRED = ['mon.stale_item_answers_right_in_front_of_the_table_info_answer', 'mon.reconnects_issued_at_once_from_the_failure_notification', 'mon.attempts_with_duplicated_answers', 'mon.close_in_a_port_or_parameter_callback_of_the_application', 'mon.attempts', 'mon.trigger_fired', 'mon.reconnects', 'mon.fault_before_first_packet',
             'mon.fault_mid_setup', 'mon.fault_after_connected', 'mon.close_in_callback', 'mon.sync_api', 'mon.async_api',
             'mon.line_preempted_runs', 'mon.three_cycle_histories', 'mon.fault_during_driver_connect']
 DESC_TIMEOUT = 1500
@@ -223,6 +223,24 @@ def one_run(desc, k, sseed, calibrate=False):
             spec.sess_tx = spec.sess_rx = 0     # the closer thread of attempt 1 polls the per-session counter
             res['faults_before'] = spec.faults_fired
             outcome.clear()
+            if not desc.get('dup'):
+                # an item answer to the session that was cut short may still arrive - right in front of the answer to
+                # the new session's question about that table
+                srng = random.Random(sseed ^ 0x51A1E)
+
+                def item_before_info(sp, n, h, d):
+                    outs = [(0.0, h, d)]
+                    port = (h >> 4) & 0xF
+                    if port in (2, 5) and h & 3 == 0 and d and d[0] in ((3,) if dev.proto >= 4 else (1,)) and srng.random() < 0.5:
+                        count, item = (len(dev.log_toc), dev.log_item) if port == 5 else (len(dev.params), dev.param_item)
+                        if count:
+                            import struct as _st2
+                            idx = srng.randrange(count)
+                            dd = (bytes([2]) + _st2.pack('<H', idx) + item(idx)) if dev.proto >= 4 else (bytes([0, idx]) + item(idx))
+                            outs = [(0.0, simcf.hdr(port, 0), dd)] + outs
+                            res['stale_item_before_info'] = res.get('stale_item_before_info', 0) + 1
+                    return outs
+                spec.reply_policy = item_before_info
         # ---------------- attempt 1
         attempt['n'] = 1
         spec.fail_reporter = desc['reporter']
@@ -657,6 +675,7 @@ def run(desc, ctx):
                         ctx.count('obs.dead_driver_left_in_cf_link_after_error_during_connect')
             if desc.get('dup'):
                 ctx.count('mon.attempts_with_duplicated_answers')
+            ctx.count('mon.stale_item_answers_right_in_front_of_the_table_info_answer', res.get('stale_item_before_info', 0))
             ctx.count('mon.sync_api' if desc['api'] == 'sync' else 'mon.async_api')
             if desc['line_p'] > 0:
                 ctx.count('mon.line_preempted_runs')
